@@ -136,6 +136,11 @@ class FT(T):
       if t == Q:
         return ("(%s %s)" % (head, s), Q)
       raise TranslationError("%s on %s" % (f, t))
+    if f in self.fn.calls and self.fn.calls[f][1] == "vec->Q" and len(args) == 1 and not n.keywords:
+      s, t = self.expr(args[0])                                  # vector -> scalar oracle (a norm)
+      if t != VEC:
+        raise TranslationError("%s on %s" % (f, t))
+      return ("(%s %s)" % (self.fn.calls[f][0], s), Q)
     if isinstance(n.func, ast.Attribute) and n.func.attr == "astype":
       s, t = self.expr(n.func.value)
       if t == "bool":
